@@ -16,7 +16,7 @@ CHECKS = {
     "C05": dict(
         engine="PoolMap",
         technique="TLC model checking of spec/PoolMap.tla (feasible completion orders x 4 consumers) + replay of every TLC terminal behaviour through a fake multiprocessing.Pool into the real entry points; thorough: trace validation of the real Pool against PoolMapTrace",
-        text="TLC enumerates every feasible completion order of a W-worker pool (W up to NT+1, NT up to 4/5 tasks; 6 for pair counting) and checks the consumers' folds are order independent; each of those orders is replayed on the real Catalog(), build_trees, count_pairs, HistData.from_catalog, and random feasible orders on crosscorrelate/autocorrelate, comparing bit-exact digests with the max_workers=1 run. Exhaustive over schedules for small task counts, which no test can reach because the suite pins one worker.",
+        text="TLC enumerates every feasible completion order of a W-worker pool (W up to NT+1, NT up to 4/5 tasks; 6 for pair counting) and checks the consumers' folds are order independent; each of those orders is replayed on the real Catalog(), build_trees, count_pairs, HistData.from_catalog, and random feasible orders on crosscorrelate/autocorrelate, comparing bit-exact digests with the max_workers=1 run. The worlds use closed="left" (and "right") with every fourth redshift exactly on a bin edge, so the closed side must survive every pickling boundary. Exhaustive over schedules for small task counts, which no test can reach because the suite pins one worker.",
         note="Trusts the fake Pool's dispatch rule (in-order, chunksize 1, pickling) - validated against the real multiprocessing.Pool in the thorough tier; tasks of one map are assumed to touch disjoint files.",
         ref="DESIGN.md 3.2, 4 C05",
     ),
@@ -30,7 +30,7 @@ CHECKS = {
     "C18": dict(
         engine="Reader",
         technique="TLC model checking of spec/Reader.tla over every scenario (length, chunksize, source kind, Parquet row-group layout, passes) up to the bounds; each scenario replayed on real instrumented sources through Catalog.from_*, recorded requests compared with TLC's expected request sequence and with the C18 predicates",
-        text="Reader.tla models the iteration state of the chunk readers (slice readers, RandomReader, ParquetReader's row-group cache, the extra probe pass) and TLC checks Consecutive/Bounded/OncePerPass/NeverWholeInput/ChunkShapes/PassCount for all lengths 0..6(8) x chunk sizes 1..4(5) x all row-group compositions; it prints the expected request sequence of every scenario. Every scenario is then built as a real data-frame-like object, HDF5, FITS and Parquet file (exactly those row groups) or random generator and run through Catalog.from_dataframe/from_file/from_random, sequentially and on the fake multiprocessing runtime, with requests recorded at the source API; they must equal the model's, and the property predicates are evaluated on the recording itself. Exhaustive over the small parameter space where the failing region (lengths around multiples of the chunk size, row groups vs chunk size) lies.",
+        text="Reader.tla models the iteration state of the chunk readers (slice readers, RandomReader, ParquetReader's row-group cache, the extra probe pass) and TLC checks Consecutive/Bounded/OncePerPass/NeverWholeInput/ChunkShapes/PassCount for all lengths 0..6(8) x chunk sizes 1..4(5) x all row-group compositions; it prints the expected request sequence of every scenario. Every scenario is then built as a real data-frame-like object, HDF5, FITS and Parquet file (exactly those row groups) or random generator and run through Catalog.from_dataframe/from_file/from_random, sequentially and on the fake multiprocessing runtime, with requests recorded at the source API; they must equal the model's, and the property predicates are evaluated on the recording itself. Exhaustive over the small parameter space where the failing region (lengths around multiples of the chunk size, row groups vs chunk size) lies. Every fourth creation replaces an existing catalog (overwrite=True), and FITS tables are also read from extension 2 with the hdu option.",
         note="Requests are observed at the API boundary of the source (frame slicing, h5py.Dataset.__getitem__, FITS column slicing, ParquetFile.read_row_group/iter_batches, generator calls); what memory mapping does below that is not observable.",
         ref="DESIGN.md 3.3, 4 C18",
     ),
@@ -44,14 +44,14 @@ CHECKS = {
     "C02": dict(
         engine="CreatePipeline+Reader",
         technique="TLC model checking of spec/CreatePipeline.tla (ExactOnSuccess over all fault-free scenarios and schedules) and spec/Reader.tla; every (L, chunksize, W) scenario replayed on the real Catalog.from_dataframe/from_file for each source format, dtype, optional-column combination, unit and patch mode on the deterministic multiprocessing runtime (random + depth-first-exhaustive schedules), per-patch record multisets compared with exact expectations",
-        text="TLC proves for the pipeline design that a successful creation stored every record exactly once in its patch for all lengths 1..5(7), chunk sizes 1..3(4), 1..3(4) workers and every interleaving of pool tasks, queue and writer. Each scenario is then run on the real library from a data frame, HDF5, big-endian FITS and Parquet (random row-group layouts) with f8/f4/i8 columns, all four weight/redshift combinations, degrees or radian input and the three patch modes, under several schedules of the fake multiprocessing runtime (all schedules for the smallest scenarios, real processes with injected delays in the thorough tier). The oracle reads the records back from the returned catalog and from Catalog(cache): weights and redshifts bit-identical, coordinates within 2 ulp of the exact x*pi/180 (40-digit decimals), each record in the patch of its nearest given centre / named index, exactly once.",
+        text="TLC proves for the pipeline design that a successful creation stored every record exactly once in its patch for all lengths 1..5(7), chunk sizes 1..3(4), 1..3(4) workers and every interleaving of pool tasks, queue and writer. Each scenario is then run on the real library from a data frame, HDF5, big-endian FITS and Parquet (random row-group layouts) with f8/f4/i8 columns, all four weight/redshift combinations, degrees or radian input and the three patch modes, under several schedules of the fake multiprocessing runtime (all schedules for the smallest scenarios, real processes with injected delays in the thorough tier). The oracle reads the records back from the returned catalog and from Catalog(cache): weights and redshifts bit-identical, coordinates within 2 ulp of the exact x*pi/180 (40-digit decimals), each record in the patch of its nearest given centre / named index, exactly once. Modes include centres given together with a stale, disagreeing patch column (documented: ignored), and the PatchWriter buffer size (hard-coded by from_*) is substituted by 1, 2, 3, 5 to exercise the modelled flush logic.",
         note="Schedules are explored on fake multiprocessing primitives; k-means patch creation (patch_num) is only checked for the union of all patches because the centres are not fixed by the property.",
         ref="DESIGN.md 3.3, 4 C02",
     ),
     "C07": dict(
         engine="CacheFS",
         technique="TLC model checking of spec/CacheFS.tla (tree-cache machine: reuse decision on the decoded binning file, rebuild protocol) over all crash-free histories of builds and measurements; histories (exhaustive short ones, TLC-simulated longer ones, interrupted builds, the deviation's counterexample) replayed on a real catalog cache with the cache state compared with the model after every operation",
-        text="The tree cache of a patch is a small state machine: a measurement reuses cached trees iff the binning file decodes to exactly the requested binning (edges and closed side; an empty or one-byte file decodes to 'unbinned'), otherwise it rebuilds. TLC proves HistoryIndependent/NeverWrongTrees for every history of up to 4(5) operations over 5 binnings (none, A, A with the other closed side, other edges, other bin count) with forced and unforced builds, and produces a counterexample when the closed side is ignored. The histories are replayed on a real cache through Catalog.build_trees and autocorrelate/crosscorrelate (binned reference role and unbinned unknown role, catalog reopened at random): every measurement must equal, bit for bit, the one from a freshly created cache, and the decoded binning file / content of trees.pkl / rebuild-vs-reuse decision must match the model.",
+        text="The tree cache of a patch is a small state machine: a measurement reuses cached trees iff the binning file decodes to exactly the requested binning (edges and closed side; an empty or one-byte file decodes to 'unbinned'), otherwise it rebuilds. TLC proves HistoryIndependent/NeverWrongTrees for every history of up to 4(5) operations over 5 binnings (none, A, A with the other closed side, other edges, other bin count) with forced and unforced builds, and produces a counterexample when the closed side is ignored. The histories are replayed on a real cache through Catalog.build_trees and autocorrelate/crosscorrelate (binned reference role and unbinned unknown role, catalog reopened at random): every measurement must equal, bit for bit, the one obtained in a NEW interpreter on a fresh copy of the cache (so nothing kept in memory between calls can hide in the reference), and the decoded binning file / content of trees.pkl / rebuild-vs-reuse decision must match the model. The alphabet of histories includes edges that differ by a relative 2e-6, interrupted builds, builds on real worker processes, and measurements whose configurations share the binning but differ in scales or only in the parameters of a custom cosmology.",
         note="Input redshifts include values exactly on bin edges so that the closed side is observable; one cosmology and one scale set.",
         ref="DESIGN.md 3.4, 4 C07",
     ),
@@ -65,21 +65,21 @@ CHECKS = {
     "C01": dict(
         engine="Sky+PairIter",
         technique="TLC model checking of spec/Sky.tla (discrete sky: assignment, radii, pruning, (lo,hi] rule, per-cell weight-product sums) over every scenario of several configuration families, with the scale->angle conversion and the pruning angle taken from the real code as TLC constants; sampled scenarios and every TLC counterexample realised on the real sphere under rigid placements and measured with crosscorrelate/autocorrelate, counts compared cell by cell with TLC's exact integers",
-        text="Sky.tla places objects on a 72-slot ring (5 deg lattice) with 2-3 patch centres, 2 redshift bins, one or several (also overlapping / descending) scales in angular, physical and comoving units, weights, and checks for EVERY scenario of each family (10^3..10^5 each) that the conservative pruning of patch pairs loses no pair, that linkage is symmetric and reflexive, that the cells partition the in-scale pairs; it prints the exact expected count of every (scale, bin, patch pair) cell and the per-bin weight sums. Deviation flags (radii of one catalog only; pruning angle at the floored redshift) must produce counterexamples, which are replayed on the code. A stratified sample of scenarios of every family is created with Catalog.from_dataframe on the real sphere (equator, across RA=0, over both poles, tilted great circles) and measured; because every scale threshold lies between lattice distances the counts of cross-, auto- and data-random pairs and sum_weights1/2 must equal the model's integers exactly. PairIter.tla models iter_patch_id_pairs (set.pop as a free choice) for every symmetric reflexive link relation on 3(4) patches: each linked pair exactly once, upper triangle for auto; the real iterator is run on every relation and its output must be one of the orders TLC enumerates.",
+        text="Sky.tla places objects on a 72-slot ring (5 deg lattice) with 2-3 patch centres, 2 redshift bins, one or several (also overlapping / descending) scales in angular, physical and comoving units, weights, and checks for EVERY scenario of each family (10^3..10^5 each) that the conservative pruning of patch pairs loses no pair, that linkage is symmetric and reflexive, that the cells partition the in-scale pairs; it prints the exact expected count of every (scale, bin, patch pair) cell and the per-bin weight sums. Deviation flags (radii of one catalog only; pruning angle at the floored redshift) must produce counterexamples, which are replayed on the code. A stratified sample of scenarios of every family is created with Catalog.from_dataframe on the real sphere (equator, across RA=0, over both poles, tilted great circles) and measured; because every scale threshold lies between lattice distances the counts of cross-, auto- and data-random pairs and sum_weights1/2 must equal the model's integers exactly. PairIter.tla models iter_patch_id_pairs (set.pop as a free choice) for every symmetric reflexive link relation on 3(4) patches: each linked pair exactly once, upper triangle for auto; the real iterator is run on every relation and its output must be one of the orders TLC enumerates. Families also cover very extended patches (radius_i + radius_j + max angle beyond pi) and binned objects exactly on bin edges for both closed sides.",
         note="Separations are multiples of 5 deg: geometry between lattice points (C14) is not exercised. Scenarios have 2-3 objects per catalog. With separation weighting TLC supplies the exact weight-product sum per lattice distance and the driver applies the power-law factor of the fine separation bin (plain float arithmetic, 1e-9 relative).",
         ref="DESIGN.md 3.5, 4 C01",
     ),
     "C10": dict(
         engine="Sky",
         technique="TLC enumeration (spec/Sky.tla, BinOf/TotalsAgree) of every placement of the binned objects over all redshift cells (below, on each edge, inside each bin, above) for both closed sides; every stratum realised with redshifts exactly on the float of the edge and four implementations of the rule (build_trees, measurement sum_weights, pair counts, HistData) compared with the model",
-        text="The membership rule is one function of the spec (cell -> bin under the closed side); TLC enumerates all placements of 2(3) weighted objects over the 7 cells x 4 slots for closed=right and closed=left (12.5k scenarios each) and prints the expected per-bin, per-patch counts and weight sums. Each combination of cells is realised on real catalogs; BinnedTrees per-bin num_records/sum_weights, CorrFunc.dd.sum_weights, the pair counts and HistData.from_catalog must all equal the model, hence each other; patches or bins without objects must give zeros rather than exceptions.",
+        text="The membership rule is one function of the spec (cell -> bin under the closed side); TLC enumerates all placements of 2(3) weighted objects over the 7 cells x 4 slots for closed=right and closed=left (12.5k scenarios each) and prints the expected per-bin, per-patch counts and weight sums. Each combination of cells is realised on real catalogs; BinnedTrees per-bin num_records/sum_weights, CorrFunc.dd.sum_weights, the pair counts and HistData.from_catalog must all equal the model, hence each other; patches or bins without objects must give zeros rather than exceptions. A third of the edge scenarios is repeated with two workers on the fake multiprocessing runtime, where binning and closed side cross a pickling boundary.",
         note="Two bins with edges (0.2, 0.5, 0.8); edge values are the floats the configuration itself holds.",
         ref="DESIGN.md 3.5, 4 C10",
     ),
     "C12": dict(
         engine="Sky",
         technique="TLC enumeration of 3-centre scenarios (spec/Sky.tla: Nearest, Members, NumRecords, SumW, Radius, MetaDescribesPatch); realisation with every order of the centre list, in patch-index and generated-centre mode, reload on the fake multiprocessing runtime; metadata compared with the model; refusal cases for misaligned catalogs",
-        text="For every scenario of a family with three centres, single-object patches and unequal extents TLC prints per catalog and patch the record count, weight sum and radius in lattice steps. Scenarios are realised with the centres given in all 6 orders under 6 placements: keys must be 0..N-1, patch k must carry the k-th given centre, counts/weight sums equal, radius = k*delta to 1e-9, every record within the stored radius of the stored centre (independent great-circle routine), and nearest-reported-centre must reproduce the partition; the cache is reloaded with 3 workers under scrambled completion orders. Measurements must raise InconsistentPatchesError for differing patch id sets, swapped patches, centres farther apart than the radius (incl. a single-object patch of radius 0) and must accept aligned catalogs.",
+        text="For every scenario of a family with three centres, single-object patches and unequal extents TLC prints per catalog and patch the record count, weight sum and radius in lattice steps. Scenarios are realised with the centres given in all 6 orders under 6 placements: keys must be 0..N-1, patch k must carry the k-th given centre, counts/weight sums equal, radius = k*delta to 1e-9, every record within the stored radius of the stored centre (independent great-circle routine), and nearest-reported-centre must reproduce the partition; the cache is reloaded with 3 workers under scrambled completion orders. Measurements must raise InconsistentPatchesError for differing patch id sets, swapped patches, centres farther apart than the radius (incl. a single-object patch of radius 0) and must accept aligned catalogs. A given centre that attracts no object is inserted at every list position: creation must refuse, and a catalog that comes back must still have patch i = centre i.",
         note="k-means centres (patch_num) are not fixed by the property: only that the metadata describe the resulting patches.",
         ref="DESIGN.md 3.5, 4 C12",
     ),
@@ -107,7 +107,7 @@ CHECKS = {
     "C03": dict(
         engine="Jackknife",
         technique="TLC model checking of spec/Jackknife.tla (sample_patch_sum step by step, weight-product matrix, ratio, estimator applied sample-wise, n(z), histogram resampling with pool schedules, covariance) against a from-scratch recomputation without patch k on exact rationals; every terminal behaviour replayed on the real containers/catalogs; measured pair counts validated by TLC (JackknifeTrace); end-to-end comparison with re-measurement after physically deleting patch k",
-        text="TLC exhaustively checks JackknifeIsLeaveOneOut, FrameUnchanged, covariance well-formedness and termination over every pair-count array of small domains (2-4 patches, 1-3 bins, any sparsity), all weight-product and normalised-count cases (auto and cross), pseudo-random data for all defined CorrFunc member sets and redshift-estimate combinations, every per-patch histogram with every feasible pool schedule, and operation histories of 2-3 calls on the same objects. Every explored state is executed on real containers and catalogs and .data, each .samples row, .covariance and .error are compared with the model's exact rationals; end-to-end runs compare each product with a re-measurement after physically deleting patch k. Nine deviation configs must yield counterexamples, which are replayed on the code.",
+        text="TLC exhaustively checks JackknifeIsLeaveOneOut, FrameUnchanged, covariance well-formedness and termination over every pair-count array of small domains (2-4 patches, 1-3 bins, any sparsity), all weight-product and normalised-count cases (auto and cross), pseudo-random data for all defined CorrFunc member sets and redshift-estimate combinations, every per-patch histogram with every feasible pool schedule, and operation histories of 2-3 calls on the same objects. Every explored state is executed on real containers and catalogs and .data, each .samples row, .covariance and .error are compared with the model's exact rationals; end-to-end runs compare each product with a re-measurement after physically deleting patch k; covariance and error of tightly clustered samples (offset 1e4..1e7 with tiny scatter, identical rows, gridded catalogs) are compared with the jackknife formula evaluated in exact rational arithmetic. Nine deviation configs must yield counterexamples, which are replayed on the code.",
         note="Trusted: TLC, the driver's mapping of model integers to real objects, float comparison at 1e-9. Where the real statistic differs from the model (estimator / normalisation = C04's business) only the literal predicate 'sample k = the library's own statistic without patch k' decides. PSD-ness is a numeric eigvalsh side condition.",
         ref="DESIGN.md 3.5/3.6, 4 C03",
     ),
@@ -121,7 +121,7 @@ CHECKS = {
     "C13": dict(
         engine="Sky",
         technique="TLC model checking of the symmetry invariants of spec/Sky.tla (ring shift, reflection, weight scale, catalog split) on every scenario; metamorphic replay of TLC scenarios on the real sphere: rigid placements incl. both poles and the RA wrap, random rotation, shuffled rows in several chunks, all centre permutations, weight factors, catalog split, data-derived inherited centres",
-        text="RotationInvariant, ReflectionInvariant, WeightScaling and SplitAdditive are invariants of the model's count function, checked by TLC for all scenarios of two small families; a family with 3+2(3) weighted objects supplies the scenarios that are realised. Each case (data from one scenario, randoms from another) is measured with crosscorrelate/autocorrelate untransformed and under 5 further rigid placements, one random rotation, two row shuffles (chunksize 2), every permutation of the centre list (jackknife samples must permute accordingly), weights x3 / x0.37, and a split of the unknown catalog (raw counts must add exactly); amplitudes, jackknife samples, covariance and the redshift estimate must agree to 1e-9 (entries that are undefined in one run - x/0 of a sample without random pairs - only have to stay degenerate). A dense case derives the centres from the data (patch index column), lets the other catalogs inherit them and rotates everything next to either pole.",
+        text="RotationInvariant, ReflectionInvariant, WeightScaling and SplitAdditive are invariants of the model's count function, checked by TLC for all scenarios of two small families; a family with 3+2(3) weighted objects supplies the scenarios that are realised. Each case (data from one scenario, randoms from another) is measured with crosscorrelate/autocorrelate untransformed and under 5 further rigid placements, one random rotation, two row shuffles (chunksize 2), every permutation of the centre list (jackknife samples must permute accordingly), weights x3 / x0.37, and a split of the unknown catalog (raw counts must add exactly); amplitudes, jackknife samples, covariance and the redshift estimate must agree to 1e-9 (entries that are undefined in one run - x/0 of a sample without random pairs - only have to stay degenerate). A dense case derives the centres from the data (patch index column), lets the other catalogs inherit them and rotates everything next to either pole. Weight factors include 3, 0.37 and exact powers of two down to 2^-40 / up to 2^40, alone and on both catalogs, so no absolute weight scale may enter.",
         note="The continuous rotation group is sampled (six placements of the 5-deg lattice plus random rotations), not enumerated.",
         ref="DESIGN.md 3.5, 4 C13",
     ),
